@@ -484,14 +484,14 @@ class GeneInfo:
                     self.feature_attributes[gene_db.id] += '%s "%s"; ' % (attr, gene_db.attributes[attr][0])
             for t in self.db.children(gene_db, featuretype=('transcript', 'mRNA')):
                 for attr in t.attributes.keys():
-                    if attr in ['transcript_id', 'gene_id', 'ID', 'level', 'exons', 'Parent']:
+                    if attr in ['transcript_id', 'gene_id', 'ID', 'level', 'exons', 'Canonical', 'Parent']:
                         continue
                     if t.attributes[attr]:
                         self.feature_attributes[t.id] += '%s "%s"; ' % (attr, t.attributes[attr][0])
                 for e in self.db.children(gene_db, featuretype=('exon')):
                     exon_id = t.id + "_%d_%d_%s" % (e.start, e.end, e.strand)
                     for attr in t.attributes.keys():
-                        if attr in ['transcript_id', 'gene_id', 'ID', 'Parent', 'level', 'exon_id', 'exon', 'exon_number']:
+                        if attr in ['transcript_id', 'gene_id', 'ID', 'Parent', 'level', 'exon_id', 'exon', 'exon_number', 'Canonical']:
                             continue
                         if t.attributes[attr]:
                             self.feature_attributes[exon_id] += '%s "%s"; ' % (attr, t.attributes[attr][0])
